@@ -138,7 +138,8 @@ func runC10(c c10Case) (*vh.Violation, vh.Outcome) {
 		drain(len(sim.served))
 		sim.mu.Unlock()
 	}
-	setOp := func(i int) { sim.mu.Lock(); curOp = i; sim.mu.Unlock() }
+	opStart := map[int]int{} // operation -> number of requests served when it began
+	setOp := func(i int) { sim.mu.Lock(); curOp = i; opStart[i] = len(sim.served); sim.mu.Unlock() }
 	countLog := func(msg string) int { return logs.FilterMessage(msg).Len() }
 	processedHead := func() uint64 {
 		var h uint64
@@ -394,6 +395,24 @@ func runC10(c c10Case) (*vh.Violation, vh.Outcome) {
 			if s.method == "eth_getTransactionReceipt" && s.arg == m.TxHash.Hex() && !s.err {
 				x := s
 				lastRcpt = &x
+			}
+		}
+		// "at that moment": the receipt the hand-off rests on was asked for after the message had become deep enough
+		// (polling path) or while the request was being handled (re-observation path), not remembered from earlier
+		if lastRcpt != nil && lastRcpt.found {
+			fresh := -1
+			if isReobsOp(a.opIdx) {
+				fresh = opStart[a.opIdx]
+			} else {
+				for k := 0; k < a.servedAt && k < len(servedLog); k++ {
+					if sv := servedLog[k]; sv.method == "eth_getBlockByNumber" && !sv.err && sv.arg == headTag && sv.head >= t.OrigBlock+conf {
+						fresh = k
+						break
+					}
+				}
+			}
+			if fresh >= 0 && lastRcpt.seq < fresh {
+				return vh.V("C10/forwarded-on-stale-receipt", "op %d: message of tx %s forwarded on a receipt the node was last asked for at request #%d, before the message became deep enough / the request arrived (request #%d); nothing was asked at the moment of the hand-off", a.opIdx, m.TxHash.Hex(), lastRcpt.seq, fresh), out
 			}
 		}
 		if lastRcpt == nil || !lastRcpt.found {
